@@ -100,7 +100,16 @@ class MillerDomain:
             if "int" in c:
                 return int(c["int"])
             if "bytes_hex" in c:
-                return Tup(list(bytes.fromhex(c["bytes_hex"])))
+                raw = list(bytes.fromhex(c["bytes_hex"]))
+                import re as _re
+                mm = _re.match(r"^\[(.+); (\d+)\]$", (c.get("ty") or "").strip())
+                adt = self.F.adts.get(mm.group(1)) if mm else None
+                if adt and adt.get("kind") == "Enum" and len(raw) == int(mm.group(2)) and all(not v.get("fields") for v in adt["variants"]):
+                    # a table of a crate-local fieldless enum (one byte each, const-evaluated by rustc): its variants by discriminant
+                    by = {(v.get("discr", i) if isinstance(v.get("discr", i), int) else i): v["name"] for i, v in enumerate(adt["variants"])}
+                    if all(x in by for x in raw):
+                        return Tup([Adt(mm.group(1), by[x], []) for x in raw])
+                return Tup(raw)
         return TOP
 
     def mul_line(self, term, f, g):
